@@ -11,6 +11,7 @@ import copy
 import itertools
 import math
 import random
+from fractions import Fraction
 
 import numpy
 
@@ -23,10 +24,13 @@ ANCHORS = [("deap/cma.py", ["StrategyOnePlusLambda", "StrategyMultiObjective", "
            ("deap/tools/emo.py", ["sortLogNondominated"])]
 LEVEL = "proof"
 RULE = ("streams in this order: structured histories (success streaks, simultaneous constraint violations, sibling "
-        "survivors, plain Fitness with unevaluated offspring, MO default mu / more initial individuals than mu), exactly "
+        "survivors, plain Fitness with unevaluated offspring, MO default mu / more initial individuals than mu), _select end to end "
+        "through the COMPOSED model (C04 sort + C15 indicator) on exactly representable bi-/tri-objective fitnesses with ties in "
+        "single objectives, duplicates, min/max/mixed weights and a near-tie family (first part; the larger second part closes the run), exactly "
         "singular constraint updates (inv raises), then histories of 1..300 generate/update rounds with parameter overrides "
         "(d, ptarg, cp, cc, ccov/ccovp, ccovn, cconst, beta, pthresh): (1+lambda) on sphere/ellipsoid/step (dims 2..6, lambda 1..8; "
-        "thorough dims ..10, lambda ..20), exhaustive elitism histories over fitness values {0,1,2}; MO on "
+        "thorough dims ..10, lambda ..20), exhaustive elitism histories over fitness values {0,1,2} and over "
+        "bi-objective fitnesses {0,1}^2 (lexicographic order of C01); MO on "
         "bi-sphere/ZDT-like/step objectives (mu 1..6, lambda = mu and != mu; thorough mu ..10, lambda ..20), direct "
         "_select on small grids with ties and duplicates, direct _rankOneUpdate with every sign pattern / tiny / zero "
         "vectors; active (1+lambda) with 0..3 linear constraints, mixed-integer steps, bare-array and evaluated "
@@ -40,8 +44,10 @@ TRUSTED = ["numpy.linalg.cholesky / numpy.linalg.inv (LAPACK): parameters of the
            "ignored'; both contracts are checked numerically on every call, singular A' is forced (actsing stream)",
            "IEEE-754 rounding: theorems are over the reals; the Float instance of the same definitions is compared "
            "with numpy within relative tolerance 1e-9 (scaled by the condition number for the inverse factors)",
-           "tools.sortLogNondominated (property C04) and the hypervolume indicator (property C15) enter the model as "
-           "parameters; the oracle re-derives ranks and 2-D hypervolume contributions independently",
+           "tools.sortLogNondominated (property C04) and the hypervolume indicator (property C15): inside _select they are the "
+           "proved C04 / C15 models (theorem mo_select_library, driver op mo-sel-lib, exact regime); in the Float replay of whole "
+           "update() rounds on arbitrary doubles their answers are a tape; the oracle re-derives ranks and exact hypervolume "
+           "contributions (any dimension) independently",
            "numpy.dot/outer/sum semantics (modelled on lists in Core/CmaElitist.lean, exercised by every line)"]
 ASSUMPTIONS = ["fitness values are finite (no NaN); the fitness order is the total lexicographic order of weighted values",
                "populations handed to update() are the ones produced by generate() (lambda individuals, tagged)",
@@ -58,8 +64,12 @@ EXPLANATION = ("PARTIAL. Lean theorems about Core/CmaElitist.lean, all inputs: e
                "alignment of the five per-parent lists (mo_select_count, mo_rank_then_hv, mo_alignment, mo_adjust_spec, "
                "mo_offspring_values); whole-history invariants: active_inverse_history (invA*A = I through rank-one and "
                "constraint updates), mo_inverse_history and mo_psucc_sigma_history (every parent, any sequence of rounds), "
-               "onepl_factor_history (A A^T = C and C positive definite after every round). Trusted and validated "
-               "numerically on every call: cholesky, inv, IEEE rounding, the non-dominated sort, the hypervolume indicator.")
+               "onepl_factor_history (A A^T = C and C positive definite after every round). Composition, exact regime: mo_select_library "
+               "(_select with the C04 model of sortLogNondominated and the C15 model of the hypervolume indicator: exactly mu, whole "
+               "fronts by Pareto depth, the split front loses its least hypervolume contributor one at a time - no contract hypothesis), "
+               "elitist_never_worse_lex / active_elitist_never_worse_lex / active_elitist_never_worse_constrained (C01's Fitness and "
+               "ConstrainedFitness order: lexicographic on the weighted values, any number of objectives; fitOrd_total, cfitOrd_total). "
+               "Trusted and validated numerically on every call: cholesky, inv, IEEE rounding.")
 TOL = 1e-9
 COND_LIMIT = 1e12
 
@@ -127,6 +137,18 @@ class FCon(base.ConstrainedFitness):
     weights = (-1.0,)
 
 
+class FMin3(base.Fitness):
+    weights = (-1.0, -1.0, -1.0)
+
+
+class FMixed3(base.Fitness):
+    weights = (-1.0, 2.0, -1.0)
+
+
+class FMax2(base.Fitness):
+    weights = (1.0, 1.0)
+
+
 def ind_class(fit):
     class Ind(list):
         def __init__(self, it=()):
@@ -135,7 +157,24 @@ def ind_class(fit):
     return Ind
 
 
-IND = {n: ind_class(f) for n, f in (("min1", FMin1), ("max1", FMax1), ("min2", FMin2), ("mix2", FMixed2), ("con", FCon))}
+IND = {n: ind_class(f) for n, f in (("min1", FMin1), ("max1", FMax1), ("min2", FMin2), ("mix2", FMixed2), ("con", FCon),
+                                    ("min3", FMin3), ("mix3", FMixed3), ("max2", FMax2))}
+
+
+def rat(x):
+    """a double as the exact ratio it denotes (exact regime: the model computes over Rat)"""
+    n, d_ = float(x).as_integer_ratio()
+    return str(n) if d_ == 1 else "%d/%d" % (n, d_)
+
+
+def rv(v):
+    v = list(v)
+    return ",".join(rat(x) for x in v) if v else "-"
+
+
+def rm(m):
+    m = list(m)
+    return ";".join(rv(r) for r in m) if m else "-"
 
 
 def sphere(x):
@@ -407,14 +446,19 @@ def eval_oneplus(d):
 
 
 def eval_elit(d):
-    """Exhaustive elitism histories: the fitness of every offspring is prescribed."""
-    lam, w = d["lam"], d["weight"]
-    Ind = IND["max1" if w > 0 else "min1"]
+    """Exhaustive elitism histories: the fitness of every offspring is prescribed.  Values are scalars (single
+    objective, d["weight"]) or tuples (d["cls"]: a multi-objective fitness class, compared lexicographically by the
+    library's Fitness.__le__ / __lt__ on the weighted values)."""
+    lam = d["lam"]
+    multi = "cls" in d
+    Ind = IND[d["cls"]] if multi else IND["max1" if d["weight"] > 0 else "min1"]
+    tup = (lambda v: tuple(float(x) for x in v)) if multi else (lambda v: (float(v),))
     parent = Ind([0.0])
-    parent.fitness.values = (float(d["p0"]),)
+    parent.fitness.values = tup(d["p0"])
     parent._id = 0
     strategy = cma.StrategyOnePlusLambda(parent, 1.0, lambda_=lam)
-    best_w = tuple(parent.fitness.wvalues)
+    p0w = tuple(parent.fitness.wvalues)
+    best_w = p0w
     best_ids = [0]
     nid, orc = 1, None
     rounds, exp = [], []
@@ -422,7 +466,7 @@ def eval_elit(d):
         pop = []
         for v in vals:
             ind = Ind([float(nid)])
-            ind.fitness.values = (float(v),)
+            ind.fitness.values = tup(v)
             ind._id = nid
             nid += 1
             pop.append(ind)
@@ -449,9 +493,11 @@ def eval_elit(d):
         lsucc = sum(1 for x in popw if x >= prew)
         rounds.append("%s|%s" % (il(order_in), fm(popw)))
         exp.append("%d/%d/%s" % (par._id, lsucc, il([i._id for i in pop])))
-    lines = ["C14 elit %d 0 %s %s" % (lam, fv([float(d["p0"]) * w]), " ".join(rounds))]
-    return Case(d, lines, [" ".join(exp)], orc, tag="elit/l%d/r%d" % (lam, len(d["hist"])),
-                nontrivial=len(set(v for vs in d["hist"] for v in vs)) > 1, tol=TOL)
+    lines = ["C14 elit %d 0 %s %s" % (lam, fv(p0w), " ".join(rounds))]
+    flat = [tup(v) for vs in d["hist"] for v in vs]
+    return Case(d, lines, [" ".join(exp)], orc,
+                tag="elit%s/l%d/r%d" % ("-" + d["cls"] if multi else "", lam, len(d["hist"])),
+                nontrivial=len(set(flat)) > 1, tol=TOL)
 
 
 # ----------------------------------------------------------------------------------------
@@ -483,6 +529,23 @@ def hv2d(pts, ref):
             area += (ref[0] - x) * (best_y - y)
             best_y = y
     return area
+
+
+def hv_exact(pts, ref):
+    """Hypervolume (minimisation) of points of any dimension w.r.t. ref, from the definition, in exact rational
+    arithmetic: slabs of the last coordinate times the (d-1)-dimensional measure of the points at or below the slab."""
+    pts = [tuple(Fraction(x) for x in p) for p in pts]
+    ref = tuple(Fraction(x) for x in ref)
+    pts = [p for p in set(pts) if all(a < b for a, b in zip(p, ref))]
+    if not pts:
+        return Fraction(0)
+    if len(ref) == 1:
+        return ref[0] - min(p[0] for p in pts)
+    zs = sorted(set(p[-1] for p in pts)) + [ref[-1]]
+    vol = Fraction(0)
+    for lo, hi in zip(zs, zs[1:]):
+        vol += (hi - lo) * hv_exact([p[:-1] for p in pts if p[-1] <= lo], ref[:-1])
+    return vol
 
 
 def check_selection(mu, cands_w, chosen_pos, notchosen_pos, calls, ref_seen):
@@ -528,9 +591,14 @@ def check_selection(mu, cands_w, chosen_pos, notchosen_pos, calls, ref_seen):
     for pos, idx in calls:
         if set(pos) != cur:
             return "indicator called on a front that is not the current mid front"
-        pts = [(-cands_w[i][0], -cands_w[i][1]) for i in pos]
-        total = hv2d(pts, ref)
-        contrib = [total - hv2d(pts[:j] + pts[j + 1:], ref) for j in range(len(pts))]
+        if len(ref) == 2:
+            pts = [(-cands_w[i][0], -cands_w[i][1]) for i in pos]
+            total = hv2d(pts, ref)
+            contrib = [total - hv2d(pts[:j] + pts[j + 1:], ref) for j in range(len(pts))]
+        else:
+            pts = [tuple(-x for x in cands_w[i]) for i in pos]
+            total = float(hv_exact(pts, ref))
+            contrib = [total - float(hv_exact(pts[:j] + pts[j + 1:], ref)) for j in range(len(pts))]
         if over(contrib[idx], min(contrib) + 1e-9 * max(1.0, abs(total))):
             return "individual discarded with hypervolume contribution %.6g, least is %.6g" % (contrib[idx], min(contrib))
         cur.discard(pos[idx])
@@ -597,7 +665,7 @@ def eval_mo(d):
     lines.append("C14 mo-params %d %d %d" % (dim, mu, lam))
     expect.append(" ".join(fbits(x) for x in (dflt.d, dflt.ptarg, dflt.cp, dflt.cc, dflt.ccov, dflt.pthresh)))
     orc = None
-    n_off = n_ind = n_skip = 0
+    n_off = n_ind = n_skip = n_lib = 0
     mo_cond_max = 1.0
     S = strategy
     try:
@@ -653,6 +721,11 @@ def eval_mo(d):
             if msg:
                 raise Fail("round %d: %s" % (r, msg))
             n_ind += len(spy.calls)
+            if len(cands) > S.mu and n_lib < 12 and exact_ws(offw + pre["pw"]):
+                # exactly representable fitnesses (plateau objectives): the same call through the composed model
+                n_lib += 1
+                lines.append(sellib_line(S.mu, offw + pre["pw"]))
+                expect.append("%s %s" % (il(chosen_pos), il(not_pos)))
             k = len(S.parents)
             for name in ("sigmas", "A", "invCholesky", "pc", "psucc"):
                 if len(getattr(S, name)) != k:
@@ -767,6 +840,59 @@ def eval_mosel(d):
     return Case(d, lines, ["%s %s" % (il(cp), il(ncp))], orc,
                 tag="mosel/n%d/mu%d/%s" % (len(cands), d["mu"], "hv" if spy.calls else "ranks"),
                 nontrivial=bool(spy.calls), tol=TOL)
+
+
+def sellib_line(mu, cands_w):
+    """request line for the COMPOSED model (C04 sort + C15 indicator inside _select): exact weighted values"""
+    return "C14 mo-sel-lib %d %d %s" % (mu, len(cands_w[0]), rm(cands_w))
+
+
+def exact_ws(cands_w):
+    """all weighted values are multiples of one power of two 2^-e (e <= 12) and so small that every coordinate
+    difference (incl. the reference point, worst + 1) needs b bits with b * nobj <= 50: every product of nobj differences
+    and every sum of such products is exact in binary64, so the float hypervolumes the library compares ARE the exact ones"""
+    xs = [float(x) for w in cands_w for x in w]
+    if not xs or not all(math.isfinite(x) for x in xs):
+        return False
+    for e in range(13):
+        if all((x * (1 << e)).is_integer() for x in xs):
+            break
+    else:
+        return False
+    span = (2.0 * max(abs(x) for x in xs) + 2.0) * (1 << e)
+    bits = int(math.ceil(math.log2(span))) + 1
+    return bits * len(cands_w[0]) <= 50
+
+
+def eval_mosellib(d):
+    """_select END TO END on prescribed, exactly representable bi-/tri-objective fitnesses (ties, duplicates, dominated
+    points): the real StrategyMultiObjective._select (real sortLogNondominated, real hypervolume indicator) against the
+    composed Lean model MOLib.select; the oracle re-derives ranks and exact hypervolume contributions independently."""
+    Ind = IND[d["cls"]]
+    cands = []
+    for v in d["vals"]:
+        c = Ind([0.0])
+        c.fitness.values = tuple(float(x) for x in v)
+        cands.append(c)
+    nobj = len(d["vals"][0])
+    holder = [Ind([0.0])]
+    holder[0].fitness.values = (0.0,) * nobj
+    S = cma.StrategyMultiObjective(holder, 1.0, mu=d["mu"], lambda_=1)
+    spy = SelectSpy(S)
+    chosen, notchosen = S._select(list(cands))
+    pos = lambda c: next(p for p, q in enumerate(cands) if q is c)
+    cp, ncp = [pos(c) for c in chosen], [pos(c) for c in notchosen]
+    cw = [tuple(c.fitness.wvalues) for c in cands]
+    orc = check_selection(d["mu"], cw, cp, ncp, spy.calls, spy.ref)
+    lines, expect = [], []
+    # near-tie cases carry doubles whose products are not exact: the model line is sent only when the library's
+    # float hypervolumes were not consulted or are exact
+    if not spy.calls or exact_ws(cw):
+        lines.append(sellib_line(d["mu"], cw))
+        expect.append("%s %s" % (il(cp), il(ncp)))
+    return Case(d, lines, expect, orc,
+                tag="mosellib/%s/%s%s" % (d["cls"], "hv" if spy.calls else "ranks", "/near" if d.get("near") else ""),
+                nontrivial=bool(spy.calls) or len(cands) > d["mu"], tol=TOL)
 
 
 def eval_r1(d):
@@ -1105,6 +1231,8 @@ def evaluate(d):
             return eval_mo(d)
         if k == "mosel":
             return eval_mosel(d)
+        if k == "mosellib":
+            return eval_mosellib(d)
         if k == "r1":
             return eval_r1(d)
         if k == "act":
@@ -1321,6 +1449,17 @@ def gen_elit(thorough, rng):
                         continue
                     yield {"k": "elit", "lam": lam, "weight": weight, "p0": p0,
                            "hist": [list(flat[i * lam:(i + 1) * lam]) for i in range(nr)]}
+    # multi-valued fitnesses (the order of C01: lexicographic on the weighted values): every history of lam * nr
+    # offspring over the four fitnesses {0,1}^2, ties in the first objective included; minimised and mixed weights
+    grid = [(a, b) for a in (0, 1) for b in (0, 1)]
+    for lam, nr in [(1, 2), (2, 1), (2, 2), (1, 3)] + ([(3, 1), (1, 4)] if thorough else []):
+        for cls in ("min2", "mix2"):
+            for p0 in ((0, 1), (1, 0)):
+                for flat in itertools.product(grid, repeat=lam * nr):
+                    if not thorough and lam * nr > 2 and rng.random() < 0.6:
+                        continue
+                    yield {"k": "elit", "lam": lam, "cls": cls, "p0": list(p0),
+                           "hist": [[list(v) for v in flat[i * lam:(i + 1) * lam]] for i in range(nr)]}
 
 
 def gen_r1(thorough, rng, mult, dmax):
@@ -1369,12 +1508,71 @@ def gen_mosel(thorough, rng, mult):
         yield {"k": "mosel", "mu": rng.randint(1, n + 1), "pts": pts}
 
 
+def gen_mosellib(rng, count):
+    """_select end to end on exactly representable fitnesses: bi- and tri-objective, minimised / maximised / mixed
+    weights, exact ties in single objectives (several candidates sharing the first / the last objective), duplicates,
+    dominated layers, every mu; a near-tie family (values a few ulps apart) whose mu is a sum of whole fronts."""
+    for i in range(count):
+        style = i % 6
+        if style in (0, 1, 5):
+            cls = rng.choice(["min2", "min2", "mix2", "max2"])
+            nobj = 2
+        else:
+            cls = rng.choice(["min3", "min3", "mix3"])
+            nobj = 3
+        n = rng.randint(3, 10 if nobj == 2 else 8)
+        if style == 0:        # one big bi-objective front with ties in either objective, some dominated points
+            xs = sorted(rng.randint(0, 24) for _ in range(n))
+            vals = [[x / 4.0, (24 - x) / 4.0 + rng.choice((0, 0, 0.25, 0.5))] for x in xs]
+            rng.shuffle(vals)
+        elif style == 1:      # small grid: layered fronts, many exact ties and duplicates
+            g = rng.choice([2, 3, 4])
+            vals = [[rng.randint(0, g) / 2.0, rng.randint(0, g) / 2.0] for _ in range(n)]
+        elif style == 2:      # tri-objective grid
+            g = rng.choice([2, 3])
+            vals = [[rng.randint(0, g) / 2.0 for _ in range(3)] for _ in range(n)]
+        elif style == 3:      # tri-objective anti-chain-like (x + y + z about constant) with ties per objective
+            vals = []
+            for _ in range(n):
+                a, b = rng.randint(0, 8), rng.randint(0, 8)
+                vals.append([a / 4.0, b / 4.0, max(0, 12 - a - b + rng.choice((0, 0, 1))) / 4.0])
+        elif style == 4:      # tri-objective, last objective constant or two-valued (the sort drops to fewer objectives)
+            vals = [[rng.randint(0, 6) / 2.0, rng.randint(0, 6) / 2.0, rng.choice((1.0, 1.0, 2.0))] for _ in range(n)]
+        else:                 # plateau in the first objective: several candidates tied there (clipped genotypes)
+            vals = [[0.0 if rng.random() < 0.6 else rng.randint(1, 4) / 8.0, rng.randint(0, 40) / 4.0] for _ in range(n)]
+        if rng.random() < 0.25:
+            vals[rng.randrange(n)] = list(vals[rng.randrange(n)])     # duplicate fitness
+        yield {"k": "mosellib", "cls": cls, "mu": rng.randint(1, n) if rng.random() < 0.9 else n + 1, "vals": vals}
+        if i % 5 == 0:
+            # near ties: neighbouring doubles in one objective; mu = a sum of leading whole fronts, so that the ranking
+            # alone decides (the model compares the exact values of the bit patterns)
+            cls = rng.choice(["min2", "min3"])
+            nobj = 2 if cls == "min2" else 3
+            n = rng.randint(3, 8)
+            base_ = [rng.choice((0.5, 1.0, 1.5)) for _ in range(nobj)]
+            vals = []
+            for _ in range(n):
+                v = []
+                for j in range(nobj):
+                    x = base_[j] if rng.random() < 0.6 else rng.choice((0.25, 2.0))
+                    for _u in range(rng.choice((0, 0, 1, 2))):
+                        x = math.nextafter(x, rng.choice((0.0, 4.0)))
+                    v.append(x)
+                vals.append(v)
+            ranks = pareto_ranks([tuple(-x for x in v) for v in vals])
+            sizes = [sum(1 for r_ in ranks if r_ == q) for q in range(max(ranks) + 1)]
+            mu = sum(sizes[:rng.randint(1, len(sizes))])
+            yield {"k": "mosellib", "cls": cls, "mu": mu, "vals": vals, "near": True}
+
+
 def generate(tier, rng, mult):
     """Streams in order of how much of the statement they carry (the time budget truncates from the end):
     whole histories of the three strategies first, then the direct single-call streams."""
     thorough = tier == "thorough"
     dmax, lmax, mumax = (10, 20, 10) if thorough else (6, 8, 6)
     for d in gen_structured(thorough, rng, mult, lmax):
+        yield d
+    for d in gen_mosellib(rng, (2000 if thorough else 300) * mult):
         yield d
     for d in gen_actsing(thorough, rng, mult):
         yield d
@@ -1389,6 +1587,8 @@ def generate(tier, rng, mult):
     for d in gen_elit(thorough, rng):
         yield d
     for d in gen_mosel(thorough, rng, mult):
+        yield d
+    for d in gen_mosellib(rng, (30000 if thorough else 2000) * mult):
         yield d
 
 
@@ -1409,6 +1609,15 @@ def shrink(d):
             e["pts"] = d["pts"][:i] + d["pts"][i + 1:]
             if e["mu"] >= 1:
                 yield e
+    if d["k"] == "mosellib" and len(d["vals"]) > 2 and not d.get("near"):
+        for i in range(len(d["vals"])):
+            e = dict(d)
+            e["vals"] = d["vals"][:i] + d["vals"][i + 1:]
+            yield e
+        if d["mu"] > 1:
+            e = dict(d)
+            e["mu"] = d["mu"] - 1
+            yield e
     if d["k"] in ("op", "act") and d.get("shuffle"):
         e = dict(d)
         e["shuffle"] = False
